@@ -92,13 +92,19 @@ func Minimise(pe PropEngine, v Violation, maxExec int, maxWall time.Duration) (V
 		return v, execs
 	}
 	cur = *find(vs, v.Key())
+	// Greedy passes over the engine's candidates. After a candidate is
+	// accepted the list is rebuilt for the smaller scenario and the pass goes
+	// on at the same position (what was tried before it failed a moment ago
+	// and is tried again in the next pass), so a scenario with n removable
+	// parts costs about n executions per pass, not n*n.
 	for progress := true; progress; {
 		progress = false
-		for _, cand := range pe.Candidates(cur.Scenario) {
+		cands := pe.Candidates(cur.Scenario)
+		for i := 0; i < len(cands); i++ {
 			if execs >= maxExec || time.Since(t0) > maxWall {
 				return cur, execs
 			}
-			vs, _, err := replayTimed(pe, cand, limit)
+			vs, _, err := replayTimed(pe, cands[i], limit)
 			execs++
 			if err != nil {
 				continue
@@ -106,7 +112,8 @@ func Minimise(pe PropEngine, v Violation, maxExec int, maxWall time.Duration) (V
 			if hit := find(vs, v.Key()); hit != nil {
 				cur = *hit
 				progress = true
-				break
+				cands = pe.Candidates(cur.Scenario)
+				i--
 			}
 		}
 	}
